@@ -195,7 +195,7 @@ class ByteStoreEngine(Engine):
                 "edit": rng.choice([3, 6]), "file_write": rng.choice([1, 3]), "undo": rng.choice([1, 3]),
                 "redo": rng.choice([1, 2]), "reopen": rng.choice([0, 1, 2]), "flip": rng.choice([0, 1, 2]),
                 "fail": rng.choice([0, 1, 2]), "refactor": rng.choice([0, 2]), "create": rng.choice([0, 1]),
-                "unencodable": rng.choice([0, 1]),
+                "unencodable": rng.choice([0, 1]), "bytes_write": rng.choice([0, 0, 1]),
             },
         }
         init = []
@@ -233,6 +233,13 @@ class ByteStoreEngine(Engine):
                 new = edit_of(rng, texts[p], tuple(codecs[p])) if rng.random() < 0.7 else gen_store_text(rng, tuple(codecs[p]))
                 steps.append({"op": "file_write", "path": p, "text": new, "held": held, "id": nid})
                 texts[p] = new
+            elif k == "bytes_write":
+                # contents handed over as bytes are written verbatim (possibly another newline convention)
+                codec = tuple(codecs[p])
+                t2 = gen_store_text(rng, codec, allow_empty=False)
+                steps.append({"op": "bytes_write", "path": p, "held": held, "text": t2, "nl": rng.choice(["lf", "crlf", "cr"]),
+                              "enc": codec[2], "id": nid})
+                texts[p] = t2
             elif k == "unencodable":
                 # an edit that brings in a character the declared codec cannot hold
                 steps.append({"op": "unencodable", "path": p, "held": held, "extra": rng.choice(["日", "Ж", "€", "😀", "é"])})
@@ -281,6 +288,7 @@ class ByteStoreEngine(Engine):
             model = HistoryModel(TreeModel(W.snapshot()), 100)
             held = {}
             lbfree_seen = set()  # paths whose contents had no line break at some point of this history
+            bytes_flip_seen = set()  # paths whose convention was changed by a bytes write
             carried = set()  # paths whose held File object has seen a write since it was created
             after_reopen = False
             prefix = []
@@ -352,6 +360,18 @@ class ByteStoreEngine(Engine):
                         back = f.read()
                         if back != st["text"]:
                             bad = ("write_read_mismatch", {"path": path, "wrote": st["text"][:120], "read": back[:120]})
+                        carried.add(path)
+                    elif op == "bytes_write":
+                        raw = st["text"].replace("\n", kernel.NL[st["nl"]]).encode(st["enc"])
+                        if not _bytes_declare(st["text"], st["enc"], (codecs.get(path) or [None])[0]) or raw == data:
+                            out.stats["skipped"] += 1
+                            continue
+                        f = fobj()
+                        f.write(raw)
+                        model.do({"id": st["id"], "desc": "Writing file <%s>" % path, "ops": [["bytes", path, raw.decode("latin-1")]]})
+                        out.stats["probe_bytes_write"] += 1
+                        sig["bytes_write_nl_flip"] = newline_of(raw) != newline_of(data)
+                        bytes_flip_seen.add(path) if sig["bytes_write_nl_flip"] else None
                         carried.add(path)
                     elif op == "unencodable":
                         enc = declared_encoding(data.decode("latin-1")) or "utf-8"
@@ -516,6 +536,7 @@ class ByteStoreEngine(Engine):
                     sig["after_reopen"] = after_reopen
                     sig["newline_only"] = all(norm(snap.get(k)) == norm(want.get(k)) for k in differing)
                     sig["passed_linebreak_free"] = all(k in lbfree_seen for k in differing)
+                    sig["after_bytes_write_flip"] = all(k in bytes_flip_seen for k in differing)
                     sig["pre_linebreak_free"] = all(
                         isinstance(cur.files.get(k), bytes) and b"\n" not in cur.files[k] and b"\r" not in cur.files[k]
                         for k in differing
